@@ -83,3 +83,107 @@ where
     }
     arr
 }
+
+/// Small symbolic strings for the string-kernel harnesses: up to 3 characters, each chosen
+/// from {'a' (1 byte), 'b' (1 byte), 'é' (2 bytes), '€' (3 bytes)}.
+pub struct SymStr {
+    pub chars: [char; 3],
+    pub n: usize,
+    pub bytes: [u8; 9],
+    pub len: usize,
+}
+pub fn pick_char(sel: u8) -> char {
+    match sel & 3 {
+        0 => 'a',
+        1 => 'b',
+        2 => 'é',
+        _ => '€',
+    }
+}
+/// Build from concrete-or-symbolic selectors; `n` should be concrete for cheap symex.
+pub fn sym_str(sel: [u8; 3], n: usize) -> SymStr {
+    let mut s = SymStr { chars: ['a'; 3], n, bytes: [0; 9], len: 0 };
+    let mut i = 0;
+    while i < 3 {
+        if i < n {
+            let c = pick_char(sel[i]);
+            s.chars[i] = c;
+            let mut tmp = [0u8; 4];
+            let enc = c.encode_utf8(&mut tmp).len();
+            let mut j = 0;
+            while j < enc {
+                s.bytes[s.len + j] = tmp[j];
+                j += 1;
+            }
+            s.len += enc;
+        }
+        i += 1;
+    }
+    s
+}
+impl SymStr {
+    pub fn as_str(&self) -> &str {
+        unsafe { core::str::from_utf8_unchecked(&self.bytes[..self.len]) }
+    }
+    /// true iff `got` is exactly the characters [from, to) of this string
+    pub fn is_char_range(&self, got: &[u8], from: usize, to: usize) -> bool {
+        let mut exp = [0u8; 9];
+        let mut elen = 0;
+        let mut i = 0;
+        while i < 3 {
+            if i >= from && i < to && i < self.n {
+                let mut tmp = [0u8; 4];
+                let enc = self.chars[i].encode_utf8(&mut tmp).len();
+                let mut j = 0;
+                while j < enc {
+                    exp[elen + j] = tmp[j];
+                    j += 1;
+                }
+                elen += enc;
+            }
+            i += 1;
+        }
+        if got.len() != elen {
+            return false;
+        }
+        let mut k = 0;
+        while k < elen {
+            if got[k] != exp[k] {
+                return false;
+            }
+            k += 1;
+        }
+        true
+    }
+}
+
+/// Like `sym_str`, but the byte WIDTH of every character is concrete (so the string length is
+/// a constant and std's length-dependent fast paths fold away) and only the character of
+/// that width is symbolic: width 1: 'a'/'b', width 2: 'é'/'ñ', width 3: '€'/'✓', width 4: '😀'/'🙂'.
+pub fn sym_str_w(widths: [usize; 3], var: [bool; 3], n: usize) -> SymStr {
+    let mut s = SymStr { chars: ['a'; 3], n, bytes: [0; 9], len: 0 };
+    let mut i = 0;
+    while i < 3 {
+        if i < n {
+            let w = widths[i]; // concrete
+            let c = if w == 1 {
+                if var[i] { 'b' } else { 'a' }
+            } else if w == 2 {
+                if var[i] { 'ñ' } else { 'é' }
+            } else {
+                if var[i] { '✓' } else { '€' }
+            };
+            s.chars[i] = c;
+            let mut tmp = [0u8; 4];
+            let _ = c.encode_utf8(&mut tmp);
+            let mut j = 0;
+            while j < w {
+                s.bytes[s.len + j] = tmp[j];
+                j += 1;
+            }
+            s.len += w; // stays a constant for symex
+        }
+        i += 1;
+    }
+    s
+}
